@@ -1257,9 +1257,7 @@ impl Arena {
 
       // incresase the discarded memory.
 
-      #[cfg(feature = "tracing")]
-      tracing::debug!("discard {} bytes", segment_node.data_size);
-      self.header_mut().discarded += segment_node.data_size;
+      self.increase_discarded(segment_node.data_size);
 
       discarded += segment_node.data_size;
     }
